@@ -11,6 +11,8 @@ import (
 // extra program-level tables
 
 func (p *Prog) FuncID(f *ssa.Function) int {
+	p.mu.Lock()
+	defer p.mu.Unlock()
 	if p.funcIDs == nil {
 		p.funcIDs = map[string]int{}
 	}
@@ -33,6 +35,8 @@ func (p *Prog) FuncID(f *ssa.Function) int {
 }
 
 func (p *Prog) StrID(s string) int {
+	p.mu.Lock()
+	defer p.mu.Unlock()
 	if p.strIDs == nil {
 		p.strIDs = map[string]int{}
 	}
@@ -53,6 +57,11 @@ func (p *Prog) resolveDyn(mi *modInfo) KeySet {
 	for _, sig := range mi.dynSigs {
 		for f := range p.addrTaken {
 			if sigMatches(f.Signature, sig) {
+				if mi.owner != nil {
+					if tg, ok := p.vtaCallees[mi.owner]; ok && !tg[f] {
+						continue
+					}
+				}
 				ks.AddAll(p.ModSets[f])
 			}
 		}
